@@ -30,6 +30,7 @@ func c13DecodeValue(doc []byte) (out string, v types.Value) {
 	}); pn != nil {
 		return "panic", nil
 	}
+	c13ReuseValueCheck(doc, out, v) // the same document into a variable that already holds a value (c13_reuse.go)
 	return
 }
 
@@ -44,6 +45,7 @@ func c13DecodeInto[T any](doc []byte, show func(T) string) (out string, v T) {
 	}); pn != nil {
 		out = "panic"
 	}
+	c13ReuseCheck(doc, out, v, show) // the same document into a destination that already holds other content (c13_reuse.go)
 	return
 }
 
@@ -208,8 +210,10 @@ var c13EntityKeys = []string{"uid", "parents", "attrs", "tags", "UID", "Parents"
 func runC13(c *vh.Ctx) {
 	g := vh.NewGen(c.Rng)
 	b := &vh.Batch{}
-	c.Res.Rule = "values (nesting <= 4, every extension type, longs at the int64 boundaries, strings and keys over all of Unicode incl. quote, backslash, U+2028, <>&), escape look-alike records, entities / entity maps / requests / Decision / Diagnostic: json.Marshal -> json.Unmarshal -> Equal and a byte-identical second Marshal; number literals 2^63, -2^63-1, floats and exponents must be rejected; every accepted spelling of one datum (explicit __entity/__extn, bare {fn,arg}, bare string, implicit {type,id}, schema-guided coercion against a generated schema) must decode to Equal values; correspondence of encodeValue/decodeValue/entity/request codecs (Lean model at JSON-tree level) with the Go codecs on generated documents and on near-miss documents (accept/reject and decoded value). distinct = distinct canonical documents / values; non-trivial = value or document with at least one container, escape or extension value"
+	c.Res.Rule = "values (nesting <= 4, every extension type, longs at the int64 boundaries, strings and keys over all of Unicode incl. quote, backslash, U+2028, <>&), escape look-alike records, entities / entity maps / requests / Decision / Diagnostic: json.Marshal -> json.Unmarshal -> Equal and a byte-identical second Marshal; number literals 2^63, -2^63-1, floats and exponents must be rejected; every accepted spelling of one datum (explicit __entity/__extn, bare {fn,arg}, bare string, implicit {type,id}, schema-guided coercion against a generated schema) must decode to Equal values; every document is also decoded into a REUSED destination already holding other content of the same type (entity map, entity, request, uid, record, set, extension value, Value variable) and must give the same result and re-encoding as a fresh decode; entities / parent sets / entity maps over look-alike UIDs (distinct pairs with equal Type+ID or Type+'::'+ID concatenations, ids holding '::' and quotes, empty type or id) encoded 16 times over containers rebuilt in shuffled insertion orders must be byte-identical; correspondence of encodeValue/decodeValue/entity/request codecs (Lean model at JSON-tree level) with the Go codecs on generated documents and on near-miss documents (accept/reject and decoded value). distinct = distinct canonical documents / values; non-trivial = value or document with at least one container, escape or extension value"
 
+	c13ReuseStart(c)
+	defer func() { c13R = nil }()
 	mutV := &vh.TreeMutator{G: g, Keys: c13ValueKeys, Values: c13ValueVals}
 	mutE := &vh.TreeMutator{G: g, Keys: c13EntityKeys, Values: c13ValueVals}
 
@@ -637,6 +641,9 @@ func runC13(c *vh.Ctx) {
 		c.Count(b.Key(idx), true)
 		c.Dist("coerce")
 	}
+
+	// ---- 8. look-alike UIDs: encodings repeated over rebuilt containers (c13_ambig.go) ----
+	c13AmbiguousUIDs(c, g)
 
 	// ---- correspondence ----
 	ds, _, err := c.Correspond(b)
